@@ -1,3 +1,4 @@
 //! Verification hooks (only compiled with `--cfg rnacos_verif`).
 //! Read-only accessors and constructors used by the /verif correspondence harness.
 //! Nothing here is reachable from the normal build.
+pub mod distro;
